@@ -56,8 +56,8 @@ CHECKS = {
         "and settled after the input is stable. Sampling of schedules and resolutions, not proof.",
    note="Metastability model: per-bit old/new, clean one cycle later; 'source just after destination' covered through the "
         "opposite order; AXILiteClockDomainCrossing is run with the AXI-Lite agents and the byte-memory oracle of C09 (family "
-        "AXILiteCDC); the UART FIFO and stream.Monitor crossings use the same AsyncFIFO/MultiReg primitives and are not run "
-        "separately.",
+        "AXILiteCDC); UART(phy_cd != sys) is run with software strobes in sys and the stream side in its own domain (family "
+        "UART); stream.Monitor uses the same MultiReg primitives and is not run separately.",
    tech="deterministic simulation, seeded clock-edge interleaving + per-bit synchroniser-resolution fault injection + reset pulses"),
  "C06": dict(cat="exploration", ref="DESIGN.md 5.C06",
    text="Real Wishbone Arbiter/Decoder/InterconnectShared/Crossbar/PointToPoint (1-3 x 1-3, registered or combinational "
